@@ -67,6 +67,26 @@ type c02Candidate struct {
 	Str string
 }
 
+// c02RawRoundTrip seals and opens a raw message of n bytes with the cipher's Encrypt / Decrypt.
+func c02RawRoundTrip(ci aead.Cipher, n int) string {
+	msg := make([]byte, n)
+	for i := range msg {
+		msg[i] = byte(i*7 + 1)
+	}
+	sealed, err := ci.Encrypt(msg)
+	if err != nil {
+		return fmt.Sprintf("Encrypt refuses a %d-byte message: %v", n, err)
+	}
+	opened, err := ci.Decrypt(sealed)
+	if err != nil {
+		return fmt.Sprintf("a %d-byte message sealed by this cipher (%d bytes sealed) does not open under the same secret: %v", n, len(sealed), err)
+	}
+	if !bytes.Equal(opened, msg) {
+		return fmt.Sprintf("a %d-byte message sealed then opened comes back as %d other bytes", n, len(opened))
+	}
+	return ""
+}
+
 func c02Run(c *fw.Ctx) {
 	k1, k2 := harness.CookieSecret, harness.OtherSecret
 	c1, err := aead.NewMiscreantCipher(k1)
@@ -116,6 +136,14 @@ func c02Run(c *fw.Ctx) {
 		}
 		b, _ := json.Marshal(c.Replay.Detail)
 		json.Unmarshal(b, &d)
+		if d.API == "Encrypt/Decrypt" {
+			var n int
+			fmt.Sscanf(d.Value, "raw-%d-bytes", &n)
+			if what := c02RawRoundTrip(ciphers[d.Key], n); what != "" {
+				c.Res.Violate(fw.Violation{Property: "C02", Key: c.Replay.Key, What: what})
+			}
+			return
+		}
 		for _, v := range c02Values() {
 			if v.Name == d.Value {
 				what := c02Present(ciphers[d.Key], store, d.Key == "K1", v, d.API, d.Candidate)
@@ -132,6 +160,18 @@ func c02Run(c *fw.Ctx) {
 	viol := func(key, what, ck, api, val, cand string) {
 		c.Res.Violate(fw.Violation{Property: "C02", Key: "C02/" + key, What: what,
 			Detail: map[string]interface{}{"key": ck, "api": api, "value": val, "candidate": cand}})
+	}
+	// the cipher's own Encrypt / Decrypt on raw messages of every length from 0 to 80 bytes (block and
+	// overhead boundaries), under each key
+	for _, kn := range []string{"K1", "K2", "K3-64byte"} {
+		for n := 0; n <= 80; n++ {
+			c.Res.Execs++
+			if what := c02RawRoundTrip(ciphers[kn], n); what != "" {
+				viol(fmt.Sprintf("raw-round-trip/%d-bytes", n), what, kn, "Encrypt/Decrypt", fmt.Sprintf("raw-%d-bytes", n), "")
+			} else {
+				c.Res.Count("positive_raw_round_trips", 1)
+			}
+		}
 	}
 	for _, v := range c02Values() {
 		for _, kn := range []string{"K1", "K2", "K3-64byte"} {
@@ -461,7 +501,7 @@ func init() {
 		Level: "exploration",
 		Rule: "for 7 genuine values (empty session, session with empty non-nil groups, small session, unicode session, 50-group session with long tokens, 300-group session of >16 KiB, flow record) sealed by the real MiscreantCipher under 32- and 64-byte keys and presented to 8 other keys (unrelated keys and neighbours differing in the first / last / 33rd byte or in one half): every single-bit flip of every byte, every prefix/suffix truncation of the string and of the bytes, " +
 			"extension by every byte value and every alphabet character at either end, every single-character substitution from the base64url alphabet plus '=+/ LF', CR/LF insertion at every position, re-encodings and re-padding, the same bytes rotated / halves swapped / reversed, other spellings (percent-encoding of one / every character, twice, lower-case hex; an HTML entity; double quotes; a BOM; + for -; upper case), presentation under every other key, also at the cookie store after the value's own store has loaded it (thorough: all double-bit flips of two values); " +
-			"each candidate goes to Cipher.Unmarshal, sessions.UnmarshalSession and CookieStore.LoadSession. Oracle: a candidate that is not a string sso itself produced must be rejected with an error and yield no data; genuine values round-trip deep-equal; seals are pairwise distinct (1200 seals of two values, 8 of the others); sealed bytes contain neither plaintext fields nor the compressed plaintext. " +
+			"raw messages of 0..80 bytes round-trip through Cipher.Encrypt / Decrypt under each key; each candidate goes to Cipher.Unmarshal, sessions.UnmarshalSession and CookieStore.LoadSession. Oracle: a candidate that is not a string sso itself produced must be rejected with an error and yield no data; genuine values round-trip deep-equal; seals are pairwise distinct (1200 seals of two values, 8 of the others); sealed bytes contain neither plaintext fields nor the compressed plaintext. " +
 			"distinct_nontrivial = distinct (corruption operator, API, rejected?) triples",
 		Assumptions:    []string{"AES-CMAC-SIV (miscreant) is trusted: unforgeability against arbitrary strings is not decided by enumeration", "positions of long values are sub-sampled every 7th character in the quick tier (all positions in thorough)"},
 		QuickBudget:    4 * time.Minute,
